@@ -111,6 +111,30 @@ class _ExtendMatchAction(argparse.Action):
                 dest.extend(matches)
 
 
+class _UndefineAction(argparse.Action):
+    """
+    A custom argparse.Action for -U NAME (also -UNAME): cancels every
+    definition of the macro NAME (-D NAME, -D NAME=value, -D NAME(args)=value)
+    given earlier on the command line. Compilers process -D and -U in the
+    order they are given, so a later -D NAME defines the macro again.
+
+    Only definitions made by options of the command line are cancelled;
+    macros that a compiler definition adds for a mode or a pass (e.g.,
+    _OPENMP for -fopenmp) are not affected.
+    """
+
+    def __call__(
+        self,
+        parser: argparse.ArgumentParser,
+        namespace: argparse.Namespace,
+        value: str,
+        option_string: str,
+    ):
+        defines = getattr(namespace, self.dest)
+        kept = [d for d in defines if re.split(r"[=(]", d, 1)[0] != value]
+        setattr(namespace, self.dest, kept)
+
+
 @dataclass
 class _CompilerMode:
     name: str
@@ -363,6 +387,7 @@ class ArgumentParser:
             allow_abbrev=False,
         )
         parser.add_argument("-D", dest="defines", action="append")
+        parser.add_argument("-U", dest="defines", action=_UndefineAction)
         parser.add_argument("-I", dest="include_paths", action="append")
         parser.add_argument(
             "-isystem",
